@@ -4,8 +4,8 @@
 //! corresponding observer on. Nothing in this module changes the behaviour of the database by
 //! itself: the harness records the mutating file operations (`io`), injects I/O failures at a
 //! chosen operation (`io`), decides which thread passes a synchronisation point next (`sched`),
-//! and overrides the one constant that makes rollback-log segment roll-over unreachable with
-//! small values (`knobs`).
+//! runs background tasks as late as possible (`lazy`), and overrides the one constant that makes
+//! rollback-log segment roll-over unreachable with small values (`knobs`).
 
 #![allow(missing_docs)]
 
@@ -58,9 +58,14 @@ pub mod io {
     pub struct Event {
         /// Global stamp taken when the operation was submitted / about to be issued.
         pub seq: u64,
-        /// Global stamp taken when the operation was observed complete. `None`: never completed
-        /// (a fault was injected at submission, or the syscall itself failed).
+        /// Global stamp taken when the operation was observed complete by the code that issued it
+        /// (for a page write through the I/O pool: when its completion was received). `None`:
+        /// never observed complete (a fault was injected, the syscall failed, or the completion
+        /// was never received).
         pub done: Option<u64>,
+        /// Global stamp taken when the operation was actually performed (the syscall returned
+        /// successfully), whether or not the issuing code has learnt about it yet.
+        pub performed: Option<u64>,
         /// File name inside the database directory (`DIR` for the directory itself).
         pub file: String,
         pub kind: Kind,
@@ -95,6 +100,7 @@ pub mod io {
         log: Vec<Event>,
         seq: u64,
         pending_pages: HashMap<(RawFd, u64), Vec<usize>>,
+        completed_pages: HashMap<(RawFd, u64), Vec<usize>>,
         counts: HashMap<(String, &'static str), u64>,
         fault: Option<Fault>,
         fired: u64,
@@ -121,6 +127,7 @@ pub mod io {
             log: Vec::new(),
             seq: 1,
             pending_pages: HashMap::new(),
+            completed_pages: HashMap::new(),
             counts: HashMap::new(),
             fault: None,
             fired: 0,
@@ -179,6 +186,7 @@ pub mod io {
         s.log.push(Event {
             seq,
             done: None,
+            performed: None,
             file,
             kind,
             thread: std::thread::current().name().unwrap_or("?").to_string(),
@@ -243,6 +251,7 @@ pub mod io {
         s.seq += 1;
         if let Some(e) = s.log.get_mut(id) {
             e.done = Some(seq);
+            e.performed = Some(seq);
         }
     }
 
@@ -256,6 +265,7 @@ pub mod io {
         let seq = s.seq;
         s.seq += 1;
         s.log[id].done = Some(seq);
+        s.log[id].performed = Some(seq);
     }
 
     /// Called at the top of `IoHandle::send`. Records the submission of page writes. Returns the
@@ -317,15 +327,40 @@ pub mod io {
             Some(q) if !q.is_empty() => q.remove(0),
             _ => return result,
         };
-        let seq = s.seq;
-        s.seq += 1;
         if result.is_ok() {
-            s.log[id].done = Some(seq);
+            let seq = s.seq;
+            s.seq += 1;
+            s.log[id].performed = Some(seq);
+            s.completed_pages.entry((fd, pn)).or_default().push(id);
         }
         if s.log[id].injected {
             return Err(injected_error());
         }
         result
+    }
+
+    /// Called when a completion is handed to the thread that submitted the command. A page write
+    /// counts as complete (`Event::done`) from this moment: it is the first instant at which
+    /// the submitting code can know that the write has been performed.
+    pub(crate) fn on_recv(complete: &CompleteIo) {
+        if !is_enabled() {
+            return;
+        }
+        let (fd, pn) = match &complete.command.kind {
+            IoKind::Read(..) => return,
+            IoKind::Write(fd, pn, _) | IoKind::WriteArc(fd, pn, _) | IoKind::WriteRaw(fd, pn, _) => {
+                (*fd, *pn)
+            }
+        };
+        let mut g = STATE.lock().unwrap();
+        let Some(s) = g.as_mut() else { return };
+        let id = match s.completed_pages.get_mut(&(fd, pn)) {
+            Some(q) if !q.is_empty() => q.remove(0),
+            _ => return,
+        };
+        let seq = s.seq;
+        s.seq += 1;
+        s.log[id].done = Some(seq);
     }
 }
 
@@ -344,6 +379,237 @@ pub mod knobs {
         match ROLLBACK_SEGMENT_SIZE.load(Ordering::SeqCst) {
             0 => None,
             n => Some(n),
+        }
+    }
+}
+
+/// "As late as possible" execution of background work. When switched on, a task handed to
+/// `task::spawn_task` does not start, and a `Fsyncer` does not perform a requested fsync, until
+/// some thread actually waits for it (`task::join_task`, `Fsyncer::wait`). This turns "the code
+/// forgot to wait for X before doing Y" from a timing accident into a deterministic order that
+/// the I/O trace shows. Only tasks on the `*-sync` pools are gated. Gated tasks are released
+/// oldest first, one at a time, while a joiner is blocked; a gate that nobody opens gives up
+/// after `GATE_TIMEOUT` so that the store never hangs.
+pub mod lazy {
+    use std::cell::Cell;
+    use std::collections::{BTreeSet, HashMap};
+    use std::sync::atomic::{AtomicBool, Ordering};
+    use std::sync::{Condvar, Mutex};
+    use std::time::{Duration, Instant};
+
+    const GATE_TIMEOUT: Duration = Duration::from_millis(1500);
+    const STALL: Duration = Duration::from_millis(15);
+    const POLL: Duration = Duration::from_micros(300);
+
+    #[derive(Default)]
+    struct St {
+        next: u64,
+        gated: BTreeSet<u64>,
+        // the result channel of every registered task
+        chans: HashMap<u64, usize>,
+        released: BTreeSet<u64>,
+        // released tasks that are running and not themselves blocked in `join_task`
+        active: i64,
+        fsync_waiters: HashMap<usize, u32>,
+        released_on_demand: u64,
+        released_on_stall: u64,
+        gate_timeouts: u64,
+    }
+
+    static ENABLED: AtomicBool = AtomicBool::new(false);
+    static ST: Mutex<Option<St>> = Mutex::new(None);
+    static CV: Condvar = Condvar::new();
+    thread_local! { static IN_TASK: Cell<bool> = Cell::new(false); }
+
+    pub fn enable(on: bool) {
+        let mut g = ST.lock().unwrap();
+        *g = if on { Some(St::default()) } else { None };
+        ENABLED.store(on, Ordering::SeqCst);
+        CV.notify_all();
+    }
+
+    /// (tasks released because a joiner waited, tasks released because a joiner stalled, gates
+    /// that timed out) since `enable(true)`.
+    pub fn stats() -> (u64, u64, u64) {
+        let g = ST.lock().unwrap();
+        g.as_ref().map_or((0, 0, 0), |s| (s.released_on_demand, s.released_on_stall, s.gate_timeouts))
+    }
+
+    /// Identity of the channel behind a `crossbeam_channel` `Sender` or `Receiver`: both are a
+    /// flavor tag plus a pointer to the shared channel allocation, so the larger of the two
+    /// machine words is that pointer. 0 ("unknown") if the layout is not the expected one; the
+    /// harness checks at start-up that both ends of a channel agree (`channel_id_works`).
+    pub(crate) fn chan_id<T>(end: &T) -> usize {
+        if std::mem::size_of::<T>() != 2 * std::mem::size_of::<usize>()
+            || std::mem::align_of::<T>() != std::mem::align_of::<usize>()
+        {
+            return 0;
+        }
+        // SAFETY: `end` is a live, properly aligned value of two words; it is only read.
+        let w = unsafe { std::ptr::read(end as *const T as *const [usize; 2]) };
+        w[0].max(w[1])
+    }
+
+    pub fn channel_id_works() -> bool {
+        let (tx, rx) = crossbeam_channel::bounded::<u8>(1);
+        let (tx2, rx2) = crossbeam_channel::unbounded::<std::io::Result<()>>();
+        let (a, b, c, d) = (chan_id(&tx), chan_id(&rx), chan_id(&tx2), chan_id(&rx2));
+        a != 0 && a == b && c == d && a != c && chan_id(&tx.clone()) == a
+    }
+
+    pub(crate) fn register(chan: usize) -> Option<u64> {
+        if !ENABLED.load(Ordering::SeqCst) {
+            return None;
+        }
+        let mut g = ST.lock().unwrap();
+        let s = g.as_mut()?;
+        let id = s.next;
+        s.next += 1;
+        s.gated.insert(id);
+        s.chans.insert(id, chan);
+        Some(id)
+    }
+
+    pub(crate) fn start(id: Option<u64>) {
+        let Some(id) = id else { return };
+        let t0 = Instant::now();
+        let mut g = ST.lock().unwrap();
+        // Only the run-to-completion tasks of the sync pipeline are held back; long-lived service
+        // tasks (rollback reverse-delta worker, merkle workers) are driven through channels
+        // rather than joined and start at once.
+        let sync_pool = std::thread::current().name().map_or(false, |n| n.ends_with("-sync"));
+        if !sync_pool {
+            if let Some(s) = g.as_mut() {
+                s.gated.remove(&id);
+                if s.released.remove(&id) {
+                    s.active -= 1;
+                }
+            }
+            return;
+        }
+        loop {
+            let Some(s) = g.as_mut() else { return };
+            if s.released.remove(&id) {
+                break;
+            }
+            if t0.elapsed() > GATE_TIMEOUT {
+                s.gated.remove(&id);
+                s.gate_timeouts += 1;
+                s.active += 1;
+
+                break;
+            }
+            g = CV.wait_timeout(g, POLL * 10).unwrap().0;
+        }
+        IN_TASK.with(|c| c.set(true));
+    }
+
+    pub(crate) fn finish(id: Option<u64>) {
+        if id.is_none() || !IN_TASK.with(|c| c.replace(false)) {
+            return;
+        }
+        let mut g = ST.lock().unwrap();
+        if let Some(s) = g.as_mut() {
+            s.active -= 1;
+        }
+        CV.notify_all();
+    }
+
+    /// Called before a thread blocks waiting for a task result on channel `chan`; `ready` tells
+    /// whether the result is already there. Releases the oldest gated task that reports on that
+    /// channel (any gated task once the joiner has stalled, or when the channel is unknown).
+    pub(crate) fn before_join(chan: usize, ready: &dyn Fn() -> bool) {
+        if !ENABLED.load(Ordering::SeqCst) {
+            return;
+        }
+        let in_task = IN_TASK.with(|c| c.get());
+        let mut g = ST.lock().unwrap();
+        if in_task {
+            if let Some(s) = g.as_mut() {
+                s.active -= 1;
+            }
+        }
+        let mut last_release = Instant::now();
+        loop {
+            if ready() {
+                break;
+            }
+            let Some(s) = g.as_mut() else { break };
+            let stalled = last_release.elapsed() > STALL;
+            if s.active <= 0 || stalled {
+                let pick = s
+                    .gated
+                    .iter()
+                    .find(|id| chan != 0 && s.chans.get(id) == Some(&chan))
+                    .or_else(|| if stalled || chan == 0 { s.gated.iter().next() } else { None })
+                    .cloned();
+                if let Some(id) = pick {
+                    s.gated.remove(&id);
+                    s.released.insert(id);
+                    s.active += 1;
+                    if s.active <= 1 {
+                        s.released_on_demand += 1;
+                    } else {
+                        s.released_on_stall += 1;
+                    }
+                    last_release = Instant::now();
+                    CV.notify_all();
+                } else if s.active <= 0 && s.gated.is_empty() {
+                    // nothing left to release: whatever we wait for runs on its own
+                    break;
+                }
+            }
+            g = CV.wait_timeout(g, POLL).unwrap().0;
+        }
+        if in_task {
+            if let Some(s) = g.as_mut() {
+                s.active += 1;
+            }
+        }
+    }
+
+    pub struct FsyncWaiter(usize);
+
+    /// A thread is about to block in `Fsyncer::wait`.
+    pub(crate) fn fsyncer_waiting(id: usize) -> Option<FsyncWaiter> {
+        if !ENABLED.load(Ordering::SeqCst) {
+            return None;
+        }
+        let mut g = ST.lock().unwrap();
+        let s = g.as_mut()?;
+        *s.fsync_waiters.entry(id).or_insert(0) += 1;
+        CV.notify_all();
+        Some(FsyncWaiter(id))
+    }
+
+    impl Drop for FsyncWaiter {
+        fn drop(&mut self) {
+            let mut g = ST.lock().unwrap();
+            if let Some(s) = g.as_mut() {
+                if let Some(c) = s.fsync_waiters.get_mut(&self.0) {
+                    *c = c.saturating_sub(1);
+                }
+            }
+        }
+    }
+
+    /// The fsyncer thread has been asked to fsync: hold it until somebody waits for the result.
+    pub(crate) fn fsyncer_gate(id: usize) {
+        if !ENABLED.load(Ordering::SeqCst) {
+            return;
+        }
+        let t0 = Instant::now();
+        let mut g = ST.lock().unwrap();
+        loop {
+            let Some(s) = g.as_mut() else { return };
+            if s.fsync_waiters.get(&id).cloned().unwrap_or(0) > 0 {
+                return;
+            }
+            if t0.elapsed() > GATE_TIMEOUT {
+                s.gate_timeouts += 1;
+                return;
+            }
+            g = CV.wait_timeout(g, POLL * 10).unwrap().0;
         }
     }
 }
